@@ -102,6 +102,56 @@ Proof.
   apply possible_uniform, in_seq in Hp. lia.
 Qed.
 
+(* residue classes of a uniform index *)
+Definition class_count (n m r : nat) : nat := (n + m - 1 - r) / m.
+
+Lemma class_count_S n m r : (0 < m)%nat -> (r < m)%nat ->
+  class_count (S n) m r = (class_count n m r + if (n mod m =? r)%nat then 1 else 0)%nat.
+Proof.
+  intros Hm Hr. unfold class_count.
+  pose proof (Nat.div_mod n m ltac:(lia)) as D. pose proof (Nat.mod_upper_bound n m ltac:(lia)) as B.
+  set (q := (n / m)%nat) in *. set (t := (n mod m)%nat) in *.
+  replace (S n + m - 1 - r)%nat with ((t + m - r) + q * m)%nat by nia.
+  replace (n + m - 1 - r)%nat with ((t + m - 1 - r) + q * m)%nat by nia.
+  rewrite !Nat.div_add by lia.
+  destruct (Nat.eqb_spec t r) as [E|E].
+  - subst r. replace (t + m - t)%nat with m by lia. rewrite Nat.div_same by lia.
+    rewrite (Nat.div_small (t + m - 1 - t) m) by lia. lia.
+  - destruct (Nat.lt_ge_cases t r).
+    + rewrite (Nat.div_small (t + m - r) m), (Nat.div_small (t + m - 1 - r) m) by lia. lia.
+    + replace (t + m - r)%nat with ((t - r) + 1 * m)%nat by lia.
+      replace (t + m - 1 - r)%nat with ((t - r - 1) + 1 * m)%nat by lia.
+      rewrite !Nat.div_add by lia. rewrite !Nat.div_small by lia. lia.
+Qed.
+
+Lemma class_filter_length n m r : (0 < m)%nat -> (r < m)%nat ->
+  length (filter (fun i => (i mod m =? r)%nat) (seq 0 n)) = class_count n m r.
+Proof.
+  intros Hm Hr. induction n as [|n IH].
+  - unfold class_count. cbn [seq filter length]. symmetry. apply Nat.div_small. lia.
+  - rewrite seq_S, filter_app, app_length, IH, class_count_S by assumption. cbn [plus filter].
+    destruct (n mod m =? r)%nat; reflexivity.
+Qed.
+
+Theorem uniform_class_prob n m r : (0 < m)%nat -> (r < m)%nat ->
+  prob (uniform (seq 0 n)) (fun i => (i mod m =? r)%nat) == qnat (class_count n m r) / qnat n.
+Proof. intros Hm Hr. rewrite prob_uniform_count, class_filter_length, seq_length by assumption. reflexivity. Qed.
+
+Lemma class_count_Z n m r : (0 < m)%nat -> (r < m)%nat ->
+  Z.of_nat (class_count n m r) = ((Z.of_nat n + Z.of_nat m - 1 - Z.of_nat r) / Z.of_nat m)%Z.
+Proof.
+  intros Hm Hr. unfold class_count. rewrite Nat2Z.inj_div. f_equal. lia.
+Qed.
+
+(* a uniform member choice, seen through residue classes of the index: used for sources far too
+   large to tabulate member by member *)
+Theorem one_of_class_prob A (l : list A) d m r : one_of l = Some d -> (0 < m)%nat -> (r < m)%nat ->
+  prob d (fun i => (i mod m =? r)%nat) == qnat (class_count (length l) m r) / qnat (length l).
+Proof.
+  destruct l as [|x l]; [discriminate|]. intros H Hm Hr. unfold one_of in H.
+  assert (E : d = uniform (seq 0 (length (x :: l)))) by congruence. rewrite E. now apply uniform_class_prob.
+Qed.
+
 (* Plushy genes: a close marker (None) with probability c, else an instruction *)
 Definition gene_gen {I} (c : Q) (instrs : dist I) : dist (option I) :=
   dbind (bernoulli c) (fun close => if close then dret None else dmap Some instrs).
